@@ -184,7 +184,7 @@ def known_match(pid, case, known):
     return None
 
 
-def run_harness(prop, tier, seed, impl_dir):
+def run_harness(prop, tier, seed, impl_dir, budget=None):
     exe = build_impl.link_harness(impl_dir, [os.path.join(VERIF, "harness", s) for s in prop["harness"]], prop["id"].lower())
     if exe is None:
         return None, "harness build failed"
@@ -192,7 +192,7 @@ def run_harness(prop, tier, seed, impl_dir):
                ASAN_OPTIONS="detect_leaks=0:abort_on_error=1:allocator_may_return_null=1", UBSAN_OPTIONS="print_stacktrace=1")
     t0 = time.time()
     r = subprocess.run([exe] + prop.get("harness_args", []), capture_output=True, env=env,
-                       timeout=prop.get("timeout", {}).get(tier, 3600))
+                       timeout=budget or (prop.get("timeout") or {}).get(tier, 3600))
     out = r.stdout.decode("utf-8", "replace")
     err = r.stderr.decode("utf-8", "replace")
     lines = [l for l in out.split("\n") if l]
@@ -274,57 +274,84 @@ def main():
     # (3) implementation from the current working tree
     log("build impl")
     impl_dir = build_impl.build()
-    cases, counters, samples = [], collections.Counter(), []
+    counters, samples = collections.Counter(), []
     corr_dis, oracle_fail, faults = [], [], []
     distinct = set()
     harness_info = {}
+
+    def explore(tier_, seed_, budget=None):
+        """one harness run + model driver + comparison; results are appended to the lists above"""
+        log("harness", tier_, "seed", seed_)
+        lines, info = run_harness(prop, tier_, seed_, impl_dir, budget)
+        if lines is None:
+            tie_broken.append("harness: %s" % info); return {"error": info}
+        if info["rc"] != 0:
+            # the harness process itself died (sanitizer abort outside a forked case)
+            faults.append(dict(op="<harness process>", observed="fault:harness rc=%d" % info["rc"], expected="normal exit",
+                               history=[], kind="fault", stderr=info["stderr"][-1500:]))
+        ops, impls = [], []
+        for l in lines:
+            if "\t" not in l: continue
+            o, i = l.split("\t", 1)
+            ops.append(o); impls.append(i)
+        log("driver on", len(ops), "ops")
+        outs, drc, derr = run_driver(ops)
+        if drc != 0 or len(outs) != len(ops):
+            tie_broken.append("driver failed rc=%s lines=%d/%d %s" % (drc, len(outs), len(ops), derr[-300:]))
+        history = []
+        for idx in range(min(len(ops), len(outs))):
+            op, impl = ops[idx], impls[idx]
+            model, _, spec = outs[idx].partition("\t")
+            if not spec: spec = "n/a"
+            parts = op.split(" ")
+            opname = parts[1] if len(parts) > 1 else op
+            if opname == "reset": history = []
+            counters[opname] += 1
+            case = dict(op=op, observed=impl, history=list(history[-200:]))
+            history.append(op + "  => " + impl)
+            if impl.startswith("fault:") and not model.startswith("fault:"):
+                faults.append(dict(case, expected=model, kind="fault")); continue
+            if model != "skip" and impl != model:
+                corr_dis.append(dict(case, expected=model, kind="correspondence"))
+            sm = spec_matches(impl, spec)
+            if sm is not None:
+                if op not in distinct: distinct.add(op)
+                counters["spec_applicable"] += 1
+                if not sm:
+                    oracle_fail.append(dict(case, expected=spec, kind="oracle"))
+            if len(samples) < 6 and idx % max(1, len(ops) // 6) == 0:
+                samples.append(dict(op=op, impl=impl, model=model, spec=spec))
+        return info
+
+    searched = []
     if impl_dir is None:
         tie_broken.append("implementation does not build")
     elif not lp.get("driver_ok"):
         tie_broken.append("model driver does not build")
     else:
-        log("harness", tier, "seed", seed)
-        lines, info = run_harness(prop, tier, seed, impl_dir)
+        info = explore(tier, seed)
         harness_info = info if isinstance(info, dict) else {"error": info}
-        if lines is None:
-            tie_broken.append("harness: %s" % info)
-        else:
-            if info["rc"] != 0:
-                # the harness process itself died (sanitizer abort outside a forked case)
-                faults.append(dict(op="<harness process>", observed="fault:harness rc=%d" % info["rc"], expected="normal exit",
-                                   history=[], kind="fault", stderr=info["stderr"][-1500:]))
-            ops, impls = [], []
-            for l in lines:
-                if "\t" not in l: continue
-                o, i = l.split("\t", 1)
-                ops.append(o); impls.append(i)
-            log("driver on", len(ops), "ops")
-            outs, drc, derr = run_driver(ops)
-            if drc != 0 or len(outs) != len(ops):
-                tie_broken.append("driver failed rc=%s lines=%d/%d %s" % (drc, len(outs), len(ops), derr[-300:]))
-            history = []
-            for idx in range(min(len(ops), len(outs))):
-                op, impl = ops[idx], impls[idx]
-                model, _, spec = outs[idx].partition("\t")
-                if not spec: spec = "n/a"
-                parts = op.split(" ")
-                opname = parts[1] if len(parts) > 1 else op
-                if opname == "reset": history = []
-                counters[opname] += 1
-                case = dict(op=op, observed=impl, history=list(history[-200:]))
-                history.append(op + "  => " + impl)
-                if impl.startswith("fault:") and not model.startswith("fault:"):
-                    faults.append(dict(case, expected=model, kind="fault")); continue
-                if model != "skip" and impl != model:
-                    corr_dis.append(dict(case, expected=model, kind="correspondence"))
-                sm = spec_matches(impl, spec)
-                if sm is not None:
-                    if op not in distinct: distinct.add(op)
-                    counters["spec_applicable"] += 1
-                    if not sm:
-                        oracle_fail.append(dict(case, expected=spec, kind="oracle"))
-                if len(samples) < 6 and idx % max(1, len(ops) // 6) == 0:
-                    samples.append(dict(op=op, impl=impl, model=model, spec=spec))
+        # DESIGN 4.3: a proof obligation, a source tie or the model correspondence no longer checks and this run has
+        # no concrete failing input yet -> search for one with an enlarged budget (further seeds, then the thorough
+        # generators under a time limit) before reporting `no-failing-input-found`
+        def unexplained():
+            oracle_ops_ = set(c["op"] for c in oracle_fail + faults)
+            return [c for c in corr_dis if c["op"] not in oracle_ops_ and known_match(pid, c, known) is None]
+        def concrete_found():
+            return any(known_match(pid, c, known) is None for c in oracle_fail + faults)
+        if (not lp["ok"] or tie_broken or unexplained()) and not concrete_found() and not args.replay \
+                and os.environ.get("VERIF_NO_SEARCH") != "1":
+            t_search = time.time()
+            plan = [("quick", seed + 1000003), ("quick", seed + 2000003)]
+            if tier == "quick": plan.append(("thorough", seed))
+            for tr, sd in plan:
+                if concrete_found() or time.time() - t_search > 900: break
+                try:
+                    explore(tr, sd, budget=600)
+                    searched.append("%s/seed=%d" % (tr, sd))
+                except subprocess.TimeoutExpired:
+                    searched.append("%s/seed=%d (time limit)" % (tr, sd))
+            log("failing-input search:", searched, "found" if concrete_found() else "nothing found")
     # (5) verdict
     def report(case, suffix=""):
         k = known_match(pid, case, known)
@@ -365,7 +392,7 @@ def main():
         print("VIOLATION property=%s replay=%s" % (pid, p))
         rc = 1
     elif broken:
-        payload = dict(property=pid, seed=seed, tier=tier, kind="no-failing-input-found", broken=broken,
+        payload = dict(property=pid, seed=seed, tier=tier, kind="no-failing-input-found", broken=broken, searched=searched,
                        note="proof obligation / source tie / model correspondence no longer checks; the oracle found no failing input on the implementation in this run",
                        replay_cmd="VERIF_SEED=%d python3 tools/check.py %s --tier %s" % (seed, pid, tier))
         p = write_replay(pid, payload)
@@ -389,6 +416,7 @@ def main():
             samples=samples or [dict(note="no cases run", broken=broken)],
             exhaustive=bool(prop.get("exhaustive", False)),
             harness=dict((k, v) for k, v in harness_info.items() if k != "stderr"),
+            failing_input_search=searched,
         ),
         assumptions=prop.get("assumptions", []),
         wall_s=round(time.time() - t0, 1),
